@@ -84,20 +84,23 @@ Theorem bool_is_not_int b z :
   extend_values (mkP TInt [VInt 1]) [VBool b] = inr ETypeError /\ extend_values (mkP TFloat []) [VInt z] = inr ETypeError.
 Proof. repeat split; reflexivity. Qed.
 
-(* a refused store / append / lookup / deletion leaves every property as it was *)
+(* a refused call - create, store, append, lookup, dict assignment, deletion - leaves every property as it was *)
 Theorem refused_unchanged s o s' e :
-  (match o with PSet _ _ | PExtend _ _ | DGet _ | DDel _ | CreateSub _ | PCreateTy _ _ => True | _ => False end) ->
   vstep s o = (s', [2; e]) -> s' = s.
 Proof.
-  intros Ho H. destruct o; try contradiction; cbn [vstep] in H.
+  intros H. destruct o; cbn [vstep] in H.
+  - destruct (has_prop name s); [injection H as <- _; reflexivity|].
+    destruct (new_property vals); [injection H; discriminate | injection H as <- _; reflexivity].
   - destruct (has_prop name s); [injection H as <- _; reflexivity | injection H; discriminate].
   - unfold with_prop in H. destruct (lookup name (s_props s)); [|injection H as <- _; reflexivity].
     destruct (set_values p vals); [injection H; discriminate | injection H as <- _; reflexivity].
   - unfold with_prop in H. destruct (lookup name (s_props s)); [|injection H as <- _; reflexivity].
     destruct (extend_values p vals); [injection H; discriminate | injection H as <- _; reflexivity].
   - destruct (sec_get s k) as [[l|n]|e']; injection H; intros; subst; try reflexivity; try discriminate.
+  - destruct (sec_set s k vals); [injection H; discriminate | injection H as <- _; reflexivity].
   - destruct (sec_del s k); [injection H; discriminate | injection H as <- _; reflexivity].
   - destruct (has_sub name s); [injection H as <- _; reflexivity | injection H; discriminate].
+  - injection H; discriminate.
 Qed.
 
 (* ---- the typed-values invariant over every history *)
@@ -131,8 +134,7 @@ Proof.
   - destruct (has_prop name s); [exact H|].
     destruct (new_property vals) as [p|e] eqn:En.
     + cbn. apply append_ok; [exact H | apply (new_property_typed _ _ En)].
-    + destruct e; try exact H. destruct vals as [|v r]; [exact H|]. destruct (get_dtype v); [|exact H].
-      cbn. apply append_ok; [exact H | apply empty_typed].
+    + exact H.
   - destruct (has_prop name s); [exact H|]. cbn. apply append_ok; [exact H | apply empty_typed].
   - unfold with_prop. destruct (lookup name (s_props s)) as [p|] eqn:El; [|exact H].
     destruct (set_values p vals) as [p'|e] eqn:Es; [|exact H].
@@ -150,9 +152,7 @@ Proof.
         apply replace_ok; [exact H | apply (set_reads_back _ _ _ E2)].
       * destruct (new_property vals) as [p|e] eqn:E2; [|discriminate]. injection Es as <-. cbn.
         apply append_ok; [exact H | apply (new_property_typed _ _ E2)].
-    + destruct e; try exact H. destruct (lookup k (s_props s)); [exact H|].
-      destruct vals as [|v r]; [exact H|]. destruct (get_dtype v); [|exact H].
-      cbn. apply append_ok; [exact H | apply empty_typed].
+    + exact H.
   - destruct (sec_del s k) as [s'|e] eqn:Es; [|exact H].
     cbn. unfold sec_del in Es. destruct (lookup k (s_props s)); [|discriminate]. injection Es as <-.
     cbn. apply remove_ok. exact H.
